@@ -122,6 +122,7 @@ func (t *smtpTS) Step(in ssa.Instruction, c eng.TSConfig) []eng.TSConfig {
 		case callee == m.readLine || callee == m.dataRead:
 			t.ev("read", in, c, "")
 			c.C = 0
+			c.D = 0
 		case eng.IsCallTo(x.Common(), m.deliverObj):
 			t.ev("deliver", in, c, "")
 		}
@@ -239,6 +240,18 @@ func (t *smtpTS) Refine(b *ssa.BasicBlock, k int, c eng.TSConfig) (eng.TSConfig,
 	r, ok := eng.EdgeRel(b, k)
 	if !ok {
 		return c, true
+	}
+	// D records that a greeting keyword arm (cmd == "HELO"/"EHLO") was taken since the last
+	// input read
+	if r.Op == token.EQL {
+		s, isC := eng.ConstString(r.Y)
+		if !isC {
+			s, isC = eng.ConstString(r.X)
+		}
+		if isC && (s == "HELO" || s == "EHLO") {
+			c.D = 1
+			return c, true
+		}
 	}
 	iff := eng.IfOf(b)
 	// state comparisons
